@@ -1,4 +1,4 @@
-// audit-d, C06 — REPAIRED by /repo fix 86c56b5 (the guard now walks into regions; the pass leaves this loop alone).
+// audit-d, C06 — REPAIRED by /repo fix 9047e02 (the guard now walks into regions; the pass leaves this loop alone).
 // Before the fix: LoopLevelSetupAwaitOverlapPattern's guard "no launch between the loop start and the setup"
 // used previous_ops_of(op), which does not look into regions.  The launch inside the scf.if uses the
 // loop-carried state %l0 BEFORE the setup; after the rewrite (setup of iteration k+1 executed at the end of
